@@ -647,7 +647,10 @@ class CGen:
             tl = "__thread " if g.tls else ""
             if g.const and g.init is not None:
                 tl = "const " + tl
-            if g.init is None:
+            if g.init is None and gn.startswith("_ZTI"):
+                # external typeinfo object (fundamental / std types): { vptr, name } with the mangled name
+                gl.append((nm, 'u8 *%s[2] = {0, (u8*)"%s"};' % (nm, gn[4:]), None))
+            elif g.init is None:
                 gl.append((nm, "%s%s %s;" % (tl, ct, nm), None))
             else:
                 gl.append((nm, "%s%s %s;" % (tl, ct, nm), (g, ct, nm, tl)))
@@ -707,6 +710,15 @@ class CGen:
         for (nm, decl, _) in gl:
             out.append(decl if _ is None else "extern " + decl)
         out.append(extra_defs)
+        # run-time class table for __dynamic_cast: typeinfo address -> base class typeinfo address (single inheritance)
+        ti = ["static const void *vp_ti_parent(const void *ti) {"]
+        for gn in sorted(globs):
+            if gn.startswith("_ZTI"):
+                par = self.tparent.get(gn[4:])
+                if par and ("_ZTI" + par) in globs:
+                    ti.append("  if (ti == (const void*)&%s) return (const void*)&%s;" % (self.gname(gn), self.gname("_ZTI" + par)))
+        ti.append("  return 0; }")
+        out.extend(ti)
         out.append('#include "models.c"')
         for ct, sz in sorted(self.new_helpers.items()):
             out.append("static %s *vp_new_%s(u64 nbytes) { __CPROVER_assert(nbytes <= VP_HEAP_MAX, \"BOUND:heap block larger than VP_HEAP_MAX\"); "
@@ -756,10 +768,16 @@ class CGen:
         if not s:
             s = "void"
         rt = self.ext_param_type(f.ret)
+        pre = ""
+        for i, p in enumerate(f.params):
+            for a in p[2]:
+                if isinstance(a, tuple) and a[0] == "sret" and "basic_string" in a[1].key():
+                    # opaque function returning a std::string by value: a valid empty string (its contents are outside every claim)
+                    pre += "{ struct vp_str *s_ = (struct vp_str*)a%d; s_->p = s_->u.sso; s_->n = 0; s_->u.sso[0] = 0; } " % i
         if f.ret.kind == "void":
-            bodyc = ""
+            bodyc = pre
         else:
-            bodyc = "%s r; return r;" % rt if f.ret.kind != "ptr" else "return vp_opaque_ptr();"
+            bodyc = pre + ("%s r; return r;" % rt if f.ret.kind != "ptr" else "return vp_opaque_ptr();")
         return "%s %s(%s) { %s }" % (rt, self.gname(f.name), s, bodyc)
 
     def proto(self, f):
